@@ -138,6 +138,7 @@ type Unit struct {
 	// current loop ghost bindings
 	ghostIdx  []Val
 	sortOrd   int
+	errDropSites map[*ast.CallExpr]bool
 	ghostSeen []Val
 	writesTypeInv bool
 	noSafety  bool
